@@ -236,7 +236,11 @@ class World(object):
             def conv_src(text):
                 if w.converr(text):
                     w.events.append(("conversion-error", text))
-                    raise ValueError("cannot convert %s" % text)
+                    # a type converter may fail with any exception class (a lookup gives KeyError, ...)
+                    kind = w.sx.choice("converr_kind", ["ValueError", "KeyError", "ZeroDivisionError", "AssertionError"])
+                    kind = kind if isinstance(kind, str) else kind.concretize()
+                    raise {"ValueError": ValueError, "KeyError": KeyError, "ZeroDivisionError": ZeroDivisionError,
+                           "AssertionError": AssertionError}[kind]("cannot convert %s" % text)
                 return text
             conv_src.pattern = r"\S+"
             register_type(Src=conv_src)
